@@ -19,6 +19,18 @@ def check_g1(pid, tier):
             continue
         obs.extend(r["obligations"])
         trusted.update(r.get("trusted", ()))
+    fns = []
+    if pid == "C09":
+        try:
+            from . import s3resolve
+
+            obs += s3resolve.verify_field_alias(pid)
+            fns.append("builder.py:CodeBuilder.__get_field_alias (S8: source precedence + loop-body triple on the real AST)")
+            trusted.add("S8 loop rule: the accumulator after the loop is None or the name of an Alias among the iterated annotations (invariant proved on the body)")
+        except Exception as e:  # noqa
+            import traceback
+
+            crashes.append(f"S8: {type(e).__name__}: {e}\n" + traceback.format_exc()[-500:])
     return runner.finish(
         pid, tier, obs, t0,
         technique="VCs from the harvested generated from_dict (pysym symbolic execution, all inputs d) against FROM_SPEC/KEYMODEL, z3; exhaustive schema lattice",
@@ -27,7 +39,7 @@ def check_g1(pid, tier):
                    "explanation": "one from_spec obligation (all paths x all inputs) and one cover obligation per schema point"},
         trusted=trusted | {"hole conversions are uninterpreted (H._deserialize, int): the induction hypothesis of DESIGN.md 1.3",
                            "inspect.signature(cls).bind maps constructor arguments to parameters"},
-        functions=["<generated> __mashumaro_from_dict__ (CodeBuilder._add_unpack_method_lines, FieldUnpackerCodeBlockBuilder.build)"],
+        functions=["<generated> __mashumaro_from_dict__ (CodeBuilder._add_unpack_method_lines, FieldUnpackerCodeBlockBuilder.build)"] + fns,
         crashes=crashes,
     )
 
